@@ -9,4 +9,4 @@ Extraction "model.ml"
   is_reportable report_allowed_at report_due_at next_report_at is_expired retry_backoff_secs
   find_ctx find_sub
   inv_b ids_ok kept_ok ctx_ok ev_ok
-  graft mon_step begin_ok due_ok swept_ok retry_ok expiry_ok unprimed.
+  graft mon_step begin_ok due_ok retry_ok expiry_ok unprimed.
